@@ -29,7 +29,9 @@ def main():
 
     fd = os.open(cfg["log"], os.O_WRONLY | os.O_APPEND | os.O_CREAT, 0o644)
     kill_at = cfg.get("kill_at")
+    kill_rel = cfg.get("kill_rel")   # kill at the n-th distinct point after the first item of this process started
     counter = [0]
+    rel = [None]                     # distinct points since the first item started (None: not started)
 
     # crash points that differ from their predecessor: something happened in between (a statement other than a
     # SELECT ran, an insert call returned or raised, a block was entered or left, an item was completed). A kill at
@@ -48,6 +50,12 @@ def main():
         if dirty[0]:
             distinct.append(counter[0])
             dirty[0] = False
+            if rel[0] is not None:
+                rel[0] += 1
+                if kill_rel is not None and rel[0] == kill_rel:
+                    log({"e": "kill", "k": "item+%d" % kill_rel, "at": label})
+                    os.kill(os.getpid(), signal.SIGKILL)
+                    time.sleep(600)
         if kill_at is not None and counter[0] == kill_at:
             log({"e": "kill", "k": kill_at, "at": label})
             os.kill(os.getpid(), signal.SIGKILL)
@@ -77,7 +85,9 @@ def main():
 
         def on_statement(stmt):
             point("sql:%s:%s" % (name, stmt.strip()[:24]))
-            log({"e": "sql", "db": name, "s": " ".join(stmt.split())[:160]})
+            head = stmt.lstrip()[:6].upper()
+            if head != "SELECT" or "sqlite_master" in stmt:     # plain reads are crash points but carry no event
+                log({"e": "sql", "db": name, "s": " ".join(stmt.split())[:160]})
         self._connection.set_trace_callback(on_statement)
     Database._connect = connect
 
@@ -262,6 +272,8 @@ def main():
     for i in cfg["todo"]:
         item = plan["items"][i]
         log({"e": "item", "i": i, "n": counter[0]})
+        if rel[0] is None:
+            rel[0] = 0
         point("item:%d" % i)
         try:
             outcome = do_item(item)
@@ -284,6 +296,26 @@ def main():
     os.close(fd)
 
 
+def verify_all(tree):
+    """{hash: TokenTree.verify(token)} for every token of the tree, decided by the real verify: it is run on the tokens
+    that no other token points to; where it succeeds it has checked every token on the path back to the genesis (the
+    same checks verify makes when started from one of them); every token not covered that way is verified directly."""
+    elements = tree.elements
+    parents = {tok.previous_token_hash for tok in elements.values()}
+    out = {}
+    for h, tok in elements.items():
+        if h in parents or not tree.verify(tok):
+            continue
+        cur = tok
+        while cur is not None and cur.get_hash() not in out:
+            out[cur.get_hash()] = True
+            cur = elements.get(cur.previous_token_hash)
+    for h, tok in elements.items():
+        if h not in out:
+            out[h] = bool(tree.verify(tok))
+    return out
+
+
 def observe(im, wdb, pseudonym, hexs):
     """Read every table back and rebuild + verify the pseudonym and the wallet with the real reload code."""
     from ipv8.attestation.wallet.bonehexact.structs import BonehAttestation
@@ -296,12 +328,14 @@ def observe(im, wdb, pseudonym, hexs):
     rows["att"] = [hexs(r) for r in wdb.get_all()]
     problems = []
     rebuilt = {"tree": [], "creds": [], "atts": []}
+    verified = {}
     try:
         pk = pseudonym.public_key.key_to_bin()
         # the objects PseudonymManager.__init__ built from the file: the token tree and the credential list
+        verified = verify_all(pseudonym.tree)
         for h, tok in pseudonym.tree.elements.items():
             rebuilt["tree"].append({"row": hexs((pk, *tok.to_database_tuple())),
-                                    "ok": bool(tok.get_hash() == h and pseudonym.tree.verify(tok))})
+                                    "ok": bool(tok.get_hash() == h and verified.get(h))})
         for cred in pseudonym.credentials:
             md = cred.metadata
             rebuilt["creds"].append({"row": hexs((pk, *md.to_database_tuple())),
@@ -319,7 +353,7 @@ def observe(im, wdb, pseudonym, hexs):
         for h, tok in tree.elements.items():
             if tok.get_hash() != h:
                 problems.append("token stored under a foreign hash")
-            if not tree.verify(tok):
+            if not verified.get(h):
                 problems.append("token %s does not verify back to the genesis" % h.hex()[:12])
         creds = pseudonym.get_credentials()
         if len(creds) != len(rows["Metadata"]):
